@@ -106,7 +106,7 @@ def _run_chunk(arg):
         if r.extra:
             agg.update(r.extra)
         for v in r.viols:
-            if len(viols) < 40:
+            if len(viols) < 2000:
                 # tagged JSON, not live objects: a witness holding an unpicklable value must not kill the result pipe
                 viols.append((idx, codec.enc(case), codec.enc(v)))
             agg['violations_raw'] += 1
@@ -145,6 +145,8 @@ class Ctx(object):
         self.violations = []     # (part, idx, case, detail)
         self.samples = []
         self.nontrivial_keys = set()
+        self._open_findings = None
+        self.known_stored = 0
         self.nontrivial_count = 0            # non-trivial cases keyed by their (distinct) index
         self.parts = []          # per-part summaries
         self.coverage_extra = {}
@@ -177,6 +179,7 @@ class Ctx(object):
         agg = collections.Counter()
         outcomes = collections.Counter()
         nviol_before = len(self.violations)
+        new_here = 0
         keys = set()
         samples = []
         complete = True
@@ -196,8 +199,16 @@ class Ctx(object):
                 outcomes.update(o)
                 keys.update((part, x) for x in k)
                 for idx, case, detail in v:
-                    if len(self.violations) - nviol_before < int(os.environ.get('VERIF_MAXVIOL', '400')):
-                        self.violations.append((part, idx, codec.dec(case), codec.dec(detail)))
+                    dcase, ddetail = codec.dec(case), codec.dec(detail)
+                    if self._is_known(dcase, ddetail):
+                        # witnesses of a recorded finding never use up the room of other violations
+                        if self.known_stored < 400:
+                            self.violations.append((part, idx, dcase, ddetail))
+                            self.known_stored += 1
+                        continue
+                    if new_here < int(os.environ.get('VERIF_MAXVIOL', '400')):
+                        self.violations.append((part, idx, dcase, ddetail))
+                        new_here += 1
                 if len(samples) < 3:
                     samples.extend(s[:3 - len(samples)])
                 if time_cap and time.time() - t0 > time_cap:
@@ -231,6 +242,20 @@ class Ctx(object):
             if len(self.samples) < 12:
                 self.samples.append({'part': part, 'case': s})        # already tagged JSON (encoded in the worker)
         return summ
+
+    def _is_known(self, case, detail):
+        """does this witness match an open entry of known_findings.json (same rule as finish())"""
+        if self._open_findings is None:
+            self._open_findings = [f for f in load_findings() if f.get('property') == self.id and f.get('status') == 'open']
+        if not self._open_findings or detail.get('kind') == 'harness-exception':
+            return False
+        try:
+            import importlib
+            mod = importlib.import_module(self.modname)
+            sig = codec.enc(mod.signature(case, detail)) if hasattr(mod, 'signature') else {}
+        except Exception:
+            return False
+        return any(sig_matches(f['signature'], sig) for f in self._open_findings)
 
     def add_violation(self, part, case, detail, idx=-1):
         self.violations.append((part, idx, case, detail))
